@@ -135,10 +135,12 @@ ASSUME ScopeCoversFrameTransitions ==
      /\ <<"lengths", "resized">> \in FrameTransitions(d) /\ <<"both", "resized">> \in FrameTransitions(d)
 
 \* quick tier: a two-frame trajectory is combined with part of the (mask, (sigma, cut)) product only - every mask and
-\* every (sigma, cut) with every sequence, rotating with the sequence and the grid
-QuickPick(cs, m, sc, ngv) ==
+\* every (sigma, cut) with every sequence, rotating with the sequence and the grid; thorough tier: everything, except
+\* that a 3-D two-frame trajectory takes every other pair
+ScopePick(cs, m, sc, ngv) ==
   LET mk == m[1] + m[Len(m)] IN         \* 2, 1, 0 for the three quick masks
   IF Len(BlurCellSeqs[cs]) = 1 THEN TRUE
+  ELSE IF ~Quick THEN (Len(m) = 2 \/ (mk + sc + cs + ngv[1]) % 2 = 0)
   ELSE IF Len(m) = 2 THEN (mk + sc + cs + ngv[1]) % 3 # 0
   ELSE (mk + sc + cs + ngv[1]) % 3 = 0
 
@@ -152,7 +154,7 @@ InitBlur ==
     /\ Len(PosSets[pi][1][1]) = d
     /\ Len(PosSets[pi]) = F
     /\ \E m \in BlurMasks(d) :
-         /\ (Quick => QuickPick(cs, m, sc, ngv))
+         /\ ScopePick(cs, m, sc, ngv)
          /\ (7 * SumSeq(ngv) + ngv[1] + 3 * cs + SumSeq(m) + pi + 5 * sc) % NSHARDS = SHARD
          /\ cfg = [ng |-> ngv,
                    Hs |-> [f \in 1..F |-> BlurCells[seq[f]].H],
